@@ -132,6 +132,24 @@ def check_relations(ctx, cat, model, case):
             obs_ok = False
     ctx.check("relation.observed-inverse", obs_ok,
               "upstream-downstream|observed-inverse", case, None)
+    # the same cells asked for several times in one call, in a row and apart: each row
+    # answers for its own cell
+    if n >= 1:
+        c0 = int(np.argmax([len(u_) for u_ in model.up]))
+        c1 = int((c0 * 7 + 3) % n)
+        q = np.array([c0, c0, c1, c0, c1, c1, c0], dtype=np.int64)
+        ctx.api("upstream")
+        ctx.api("downstream")
+        ctx.tag("relation:repeated-cells-in-one-call")
+        upq = cat.upstream(q)
+        dq = cat.downstream(q)
+        okq = all(sorted(int(v) for v in upq[i] if v >= 0) ==
+                  sorted(int(v) for v in up[int(c)] if v >= 0) for i, c in enumerate(q)) \
+            and all(int(dq[i]) == int(down[int(c)]) for i, c in enumerate(q))
+        ctx.check("relation.repeated-cells", okq,
+                  "upstream-downstream|differs-for-a-cell-asked-twice-in-one-call", case,
+                  lambda: {"cells": q.tolist(), "upstream_rows": np.asarray(upq).tolist(),
+                           "downstream": np.asarray(dq).tolist()})
 
 
 def check_area(ctx, cat, model, outlet, inlets, case, nval=None, cyc=None):
@@ -252,6 +270,18 @@ def check_river(ctx, fd, model, start, case, cyc):
               lambda: {"got": cells, "expected": chain})
     ctx.check("river.dist", okd, "delineate_river|dist", case,
               lambda: {"got": dist.tolist(), "expected": exp})
+    # a buffer that is exactly as long as the river, or one longer: the same river
+    for nv2 in (len(chain), len(chain) + 1):
+        ctx.api("delineate_river")
+        ctx.tag("river:buffer-exactly-as-long-as-the-river")
+        try:
+            r2 = g.delineate_river(fd, start, nval=nv2)
+            c2_ = [int(v) for v in r2["idxcell"].values]
+        except ValueError as e:
+            c2_ = repr(e)[:120]
+        ctx.check("river.tight-buffer", c2_ == chain,
+                  "delineate_river|differs-or-raises-with-a-buffer-as-long-as-the-river",
+                  case, lambda: {"nval": nv2, "got": c2_, "expected": chain})
 
 
 def run_grid(ctx, codes, case_base, full=True, rng=None, max_outlets=None):
